@@ -475,9 +475,14 @@ fn risky(m: &Mutated) -> bool {
 }
 
 fn cli_judge(name: &str, args: &[String], dir: &std::path::Path, stdin: Option<Vec<u8>>, fails: &mut Vec<StepFail>) -> Result<(), String> {
-    let r = l2::run_bita(dir, &l2::RunSpec { args: args.to_vec(), stdin, timeout_s: 60, ..Default::default() });
+    let mut r = l2::run_bita(dir, &l2::RunSpec { args: args.to_vec(), stdin: stdin.clone(), timeout_s: 60, ..Default::default() });
     if r.timed_out {
-        return Err(format!("[timeout] bita {} did not finish in 60 s (inconclusive)", name));
+        // these inputs are a few KiB and take milliseconds: run once more under a longer limit before calling it a hang
+        r = l2::run_bita(dir, &l2::RunSpec { args: args.to_vec(), stdin, timeout_s: 240, ..Default::default() });
+        if r.timed_out {
+            fails.push(StepFail { step: "cli", fail: Fail::msg(format!("step cli {}: [hang] bita {} did not finish within 60 s and again not within 240 s on a few KiB of input: unbounded loop", name, name)) });
+            return Ok(());
+        }
     }
     let stderr = String::from_utf8_lossy(&r.stderr).to_string();
     if r.code == Some(101) || stderr.contains("panicked at ") {
